@@ -33,6 +33,13 @@ pub fn string_from_utf8_ascii(v: Vec<u8>) -> Result<String, std::string::FromUtf
     Ok(unsafe { String::from_utf8_unchecked(v) })
 }
 
+/// For the non-ASCII escaping obligations: escaping never re-validates text it did not change, and when a
+/// (wrong) replacement happens the obligation already fails on "borrowed"; validation is skipped here.
+#[cfg(kani)]
+pub fn string_from_utf8_unchecked_stub(v: Vec<u8>) -> Result<String, std::string::FromUtf8Error> {
+    Ok(unsafe { String::from_utf8_unchecked(v) })
+}
+
 macro_rules! harnesses {
     ($( $(#[$attr:meta])* $name:ident, unwind = $u:literal, raw = $k:literal, $f:expr; )*) => {
         $(
@@ -160,6 +167,11 @@ harnesses! {
     n5_iter_s4, unwind = 8, raw = 11, |r| check_ns_pop_iter(r, 4, true, false);
     n5_iter_s5, unwind = 8, raw = 11, |r| check_ns_pop_iter(r, 5, true, false);
     n5_resolve_s4, unwind = 8, raw = 14, |r| check_ns_resolve(r, 4);
+    n5_iter1_s0, unwind = 8, raw = 11, |r| check_ns_iter_k(r, 0, 1);
+    n5_iter1_s4, unwind = 8, raw = 11, |r| check_ns_iter_k(r, 4, 1);
+    n5_iter1_s5, unwind = 8, raw = 11, |r| check_ns_iter_k(r, 5, 1);
+    n5_iter2_s2, unwind = 8, raw = 11, |r| check_ns_iter_k(r, 2, 2);
+    n5_iter2_s4, unwind = 8, raw = 11, |r| check_ns_iter_k(r, 4, 2);
     n5_push_t0,    unwind = 16, raw = 2, |r| check_ns_push(r, 0);
     n5_push_t1,    unwind = 14, raw = 2, |r| check_ns_push(r, 1);
     n5_push_t2,    unwind = 15, raw = 2, |r| check_ns_push(r, 2);
@@ -261,8 +273,10 @@ harnesses! {
     #[kani::stub(core::str::from_utf8, from_utf8_ascii)]
     #[kani::stub(alloc::string::String::from_utf8, string_from_utf8_ascii)]
     x10_esc_min_mid,  unwind = 16, raw = 1,  |r| check_escape1(r, 2, b">x<", 1);
-    x10_esc_full_u2, unwind = 16, raw = 2, |r| check_escape_u2(r, 0);
-    x10_esc_min_u2,  unwind = 16, raw = 2, |r| check_escape_u2(r, 2);
+    #[kani::stub(alloc::string::String::from_utf8, string_from_utf8_unchecked_stub)]
+    x10_esc_full_u2, unwind = 8, raw = 2, |r| check_escape_u2(r, 0);
+    #[kani::stub(alloc::string::String::from_utf8, string_from_utf8_unchecked_stub)]
+    x10_esc_min_u2,  unwind = 8, raw = 2, |r| check_escape_u2(r, 2);
     #[kani::stub(core::str::from_utf8, from_utf8_ascii)]
     #[kani::stub(alloc::string::String::from_utf8, string_from_utf8_ascii)]
     x10_inv_lt,   unwind = 12, raw = 1, |r| check_unescape_entity(r, 0);
